@@ -198,12 +198,14 @@ class Unknown(Harness):
     prop, ob = PROP, 'O4'
     width = 64
 
-    def __init__(self, cat, n, pre='', suf=''):
-        self.cat, self.n, self.pre, self.suf = cat, n, pre, suf
-        self.name = 'unknown-%s-%s%d%s' % (cat, pre, n, suf)
+    def __init__(self, cat, n, pre='', suf='', terrapin=False):
+        # terrapin: the unknown name has the shape the Terrapin marking looks for (chacha20-poly1305*, *-cbc, *-etm@openssh.com) and its neighbours
+        # (a known CBC cipher, a known EtM MAC, no strict-kex marker) trigger the marking: the name stays unknown in every view
+        self.cat, self.n, self.pre, self.suf, self.terrapin = cat, n, pre, suf, terrapin
+        self.name = 'unknown-%s-%s%d%s%s' % (cat, pre, n, suf, '-terrapin-context' if terrapin else '')
 
     def params(self):
-        return {'cat': self.cat, 'n': self.n, 'pre': self.pre, 'suf': self.suf}
+        return {'cat': self.cat, 'n': self.n, 'pre': self.pre, 'suf': self.suf, 'terrapin': self.terrapin}
 
     def inputs(self):
         return {'tok': zx.fresh_str('tok', self.n, OL.NAMECH)}
@@ -212,6 +214,9 @@ class Unknown(Harness):
         name = self.pre + inp['tok'] + self.suf
         L = {c: ['x'] for c in OL.CATS}
         L[self.cat] = [name]
+        if self.terrapin:
+            L['enc'] = ([name] if self.cat == 'enc' else []) + ['aes128-cbc']
+            L['mac'] = ([name] if self.cat == 'mac' else []) + ['hmac-sha2-256-etm@openssh.com']
         db, _ = OL.fresh_tables(M)
         known = False
         for k in db[self.cat]:
@@ -221,7 +226,7 @@ class Unknown(Harness):
         rj = OL.run_output(M, L, json=True)
         if isinstance(r['ret'], Exc) or isinstance(rj['ret'], Exc):
             return {'exc': r['ret'] if isinstance(r['ret'], Exc) else rj['ret'], 'known': known}
-        parsed = [p for p in OL.parse_alg_lines(r['lines']) if p[0] == self.cat]
+        parsed = [p for p in OL.parse_alg_lines(r['lines']) if p[0] == self.cat and (not self.terrapin or bool(p[1] == name))]
         ent = rj['doc'][self.cat][0]
         tail = [ln for ln in r['lines'] if (isinstance(ln, str) and 'unknown algorithm(s) found' in ln) or (not isinstance(ln, str) and bool(ln.find('unknown algorithm(s) found') >= 0))]
         return {'known': known, 'parsed': [(h, l, t) for _, h, l, t in parsed], 'json': ent['notes'], 'ret': r['ret'], 'tail': len(tail)}
@@ -496,13 +501,15 @@ def tasks(tier):
             T.append(RowText(cat, 'ossh', nf, nw, ni, 30))
             T.append(Lookup(cat, 'ossh', nf, nw, ni))
         T.append(Lookup(cat, 'ossh', 1, 1, 0, 2))
+        T.append(Lookup(cat, 'both', 0, 1, 1, 1 if q else 3, True))
     for c1, c2 in (('enc', 'mac'), ('kex', 'key'), ('key', 'mac'), ('kex', 'enc')):
         for listed in (False, True):
             T.append(LookupTwoCats(c1, c2, listed))
-        T.append(Lookup(cat, 'both', 0, 1, 1, 1 if q else 3, True))
     for cat in OL.CATS:
         for n in ((1, 2) if q else (1, 2, 3)):
             T.append(Unknown(cat, n))
+    for cat, pre, suf in [('enc', 'chacha20-poly1305', ''), ('enc', '', '-cbc'), ('mac', '', '-etm@openssh.com')]:
+        T.append(Unknown(cat, 1, pre, suf, True))
     for cat, pre, suf in [('enc', '', '-ctr'), ('enc', 'aes', '-gcm@openssh.com'), ('mac', 'hmac-', ''), ('kex', 'ecdh-sha2-', ''), ('key', 'ssh-', ''), ('kex', 'gss', '')]:
         T.append(Unknown(cat, 1 if q else 2, pre, suf))
     for base in Gss.BASES:
@@ -531,7 +538,7 @@ def harness_by_name(name, params):
     if k == 'lookup2':
         return LookupTwoCats(p['c1'], p['c2'], p['listed'])
     if k == 'unknown':
-        return Unknown(p['cat'], p['n'], p['pre'], p['suf'])
+        return Unknown(p['cat'], p['n'], p['pre'], p['suf'], p.get('terrapin', False))
     if k == 'gss':
         return Gss(p['base'], p['n'])
     if k == 'crosscategory':
